@@ -52,7 +52,9 @@ class DictValue(GenericValue):
         if self._new_value is not undefined and self._old_value is not undefined:
             for key, s in self._new_value.items():
                 if key in self._old_value:
-                    s._re_eval(self._old_value[key], context)
+                    # the new evaluated value has to be used here,
+                    # self._old_value contains the (already updated) unmanaged values
+                    s._re_eval(value[key], context)
 
     def _new_code(self):
         return (
